@@ -713,7 +713,7 @@ def _mask_kinds(e):
 
 
 SUBS = [
-    Sub("history", check, strategy=case_st, examples={"quick": 350, "thorough": 2500}, shards={"quick": 8, "thorough": 16}),
+    Sub("history", check, strategy=case_st, examples={"quick": 350, "thorough": 2500}, shards={"quick": 16, "thorough": 16}),
 ]
 
 MANIFEST = dict(
